@@ -543,13 +543,14 @@ LEVEL_TEXT = ("Proved in Lean: (spellings) find_jobs and the reference evaluator
               "describe the cursor's id list (cursor_consistent). (groupby) the groups' members are a permutation of the "
               "ids the pre-filter selects - hence pairwise disjoint and exhaustive for distinct ids - and every member's "
               "own value for the key is the group's label or == to it (groupby_partition, groupby_disjoint, "
-              "groupby_prefilter). Every front end is compared with the real parse_filter_arg / find_jobs(str|mapping) "
+              "groupby_prefilter), and two different groups never carry == labels (groupby_labels_distinct: on mutually "
+              "orderable labels Python's < is a total preorder whose equivalence is ==, so sorting makes == labels "
+              "adjacent). Every front end is compared with the real parse_filter_arg / find_jobs(str|mapping) "
               "/ _find_job_ids / JobsCursor / groupby on real projects.")
 LEVEL_NOTE = ("Trusted: Lean kernel; axioms propext/Classical.choice/Quot.sound; harness, tables of CPython results "
               "(int, float, json.loads, re.search, math.isclose), brute-force oracles (spelling agreement on the real "
-              "code, Python list semantics for the cursor, partition by each job's own value for groupby). Not proved: "
-              "that two different groups never carry == labels (groupby_labels_distinct_full is kept as a Prop: it needs "
-              "transitivity of Python's ordering on the labels; checked by the oracle on every generated grouping); "
+              "code, Python list semantics for the cursor, partition by each job's own value for groupby). groupby_labels_distinct assumes mappings with distinct keys (Python dicts); the statement for "
+              "repeated-key association lists stays a Prop (groupby_labels_distinct_full). Not proved: "
               "general slices other than [:] are compared in the correspondence (every index, sampled slices with "
               "negative/zero steps) and only their membership is proved; callable grouping keys are oracle-only; "
               "argparse is not exercised. groupby resolves dotted keys through sub-mappings and strips only a real sp./doc. "
